@@ -601,6 +601,8 @@ class ExprMixin:
                     break
         if override is not None:
             return ("override", override)
+        if self.is_record_class(cls) and attr in getattr(getattr(cls, "DESCRIPTOR", None), "fields_by_name", {}):
+            return ("field",)          # protobuf message field
         f = inspect.getattr_static(cls, attr, MISSING)
         if f is not MISSING:
             # pydantic / dataclass fields show up as class attributes holding the default: instance field wins
